@@ -22,6 +22,7 @@ impl SchemaMut {
 		let mut state = WriteCanonicalFormState {
 			w: ErrorConversionWriter(Rabin::default()),
 			named_type_written: vec![false; self.nodes.len()],
+			unnamed_in_progress: vec![false; self.nodes.len()],
 		};
 		state.write_canonical_form(self, SchemaKey::from_idx(0))?;
 		Ok(state.w.0.finish())
@@ -31,9 +32,23 @@ impl SchemaMut {
 struct WriteCanonicalFormState<W> {
 	w: ErrorConversionWriter<W>,
 	named_type_written: Vec<bool>,
+	/// Unnamed nodes (union, array, map) we are currently inside of. Getting
+	/// back to one of them means that the schema contains a cycle that goes
+	/// through no named type, so its canonical form would be infinite.
+	unnamed_in_progress: Vec<bool>,
 }
 
 impl<W: Write> WriteCanonicalFormState<W> {
+	fn enter_unnamed(&mut self, key: SchemaKey) -> Result<(), SchemaError> {
+		if std::mem::replace(&mut self.unnamed_in_progress[key.idx], true) {
+			Err(SchemaError::new(
+				"Schema contains a cycle that can't be avoided using named references",
+			))
+		} else {
+			Ok(())
+		}
+	}
+
 	/// Manual implementation that strictly copies that of the reference
 	/// implementation in Java. According to the java code, this is not
 	/// guaranteed to actually be valid JSON (no escaping...)
@@ -92,6 +107,7 @@ impl<W: Write> WriteCanonicalFormState<W> {
 				self.w.write_str("\"string\"")?;
 			}
 			RegularType::Union(ref union) => {
+				self.enter_unnamed(key)?;
 				self.w.write_char('[')?;
 				for &variant in &union.variants {
 					if !first_time {
@@ -102,16 +118,21 @@ impl<W: Write> WriteCanonicalFormState<W> {
 					self.write_canonical_form(schema, variant)?;
 				}
 				self.w.write_char(']')?;
+				self.unnamed_in_progress[key.idx] = false;
 			}
 			RegularType::Array(ref array) => {
+				self.enter_unnamed(key)?;
 				self.w.write_str("{\"type\":\"array\",\"items\":")?;
 				self.write_canonical_form(schema, array.items)?;
 				self.w.write_char('}')?;
+				self.unnamed_in_progress[key.idx] = false;
 			}
 			RegularType::Map(ref map) => {
+				self.enter_unnamed(key)?;
 				self.w.write_str("{\"type\":\"map\",\"values\":")?;
 				self.write_canonical_form(schema, map.values)?;
 				self.w.write_char('}')?;
+				self.unnamed_in_progress[key.idx] = false;
 			}
 			RegularType::Enum(ref enum_) => {
 				if should_not_write_only_name(&enum_.name, self)? {
@@ -195,6 +216,7 @@ impl SchemaMut {
 		let mut state = WriteCanonicalFormState {
 			w: ErrorConversionWriter(String::new()),
 			named_type_written: vec![false; self.nodes.len()],
+			unnamed_in_progress: vec![false; self.nodes.len()],
 		};
 		state.write_canonical_form(self, SchemaKey::from_idx(0))?;
 		Ok(state.w.0)
